@@ -586,25 +586,44 @@ def run_impl(case, rows, batch, EV, comp):
     return out
 
 
-def eager_capture(EV, ESA, comp, rows):
-    """run `evaluate` un-jitted with ExactScalarArray.to_complex wrapped: returns the exact (coeffs, power) handed to to_complex"""
+def exact_capture(EV, ESA, comp, rows, batch):
+    """the exact (coeffs, power) that `evaluate` hands to `to_complex`: the un-jitted body of `evaluate` is traced inside our own
+    jax.jit with ExactScalarArray.to_complex wrapped (from outside, no source change); the captured tracers are returned as outputs"""
     import jax
     import jax.numpy as jnp
     cap = []
     orig = ESA.to_complex
+    body = getattr(EV.evaluate, "__wrapped__", None)
+    if body is None:
+        return None
 
     def spy(self):
-        cap.append((np.asarray(self.coeffs).astype(np.int64), np.asarray(self.power).astype(np.int64)))
+        cap.append((self.coeffs, self.power))
         return orig(self)
+
+    def fn(c, r):
+        del cap[:]
+        body(c, r)
+        return cap[-1]
 
     ESA.to_complex = spy
     try:
-        with jax.disable_jit():
-            fn = getattr(EV.evaluate, "__wrapped__", EV.evaluate)
-            fn(comp, jnp.asarray(rows, dtype=jnp.uint8))
+        jf = jax.jit(fn)
+        n = len(rows)
+        cos, pos = [], []
+        i = 0
+        while i < n:
+            chunk = rows[i:i + batch]
+            m = len(chunk)
+            if m < batch:
+                chunk = np.concatenate([chunk, np.repeat(rows[:1], batch - m, axis=0)], axis=0)
+            co, po = jf(comp, jnp.asarray(chunk, dtype=jnp.uint8))
+            cos.append(np.asarray(co).astype(np.int64)[:m])
+            pos.append(np.asarray(po).astype(np.int64)[:m])
+            i += batch
+        return np.concatenate(cos, axis=0), np.concatenate(pos, axis=0)
     finally:
         ESA.to_complex = orig
-    return cap[-1] if cap else None
 
 
 # =====================================================================================
@@ -738,16 +757,14 @@ def check_case(ctx: Ctx, case, model_out, opaque, mods) -> None:
     ctx.sample({"case": name, "n_graphs": len(case["graphs"]), "n_params": n, "rows": len(rows), "batch": batch,
                 "first_value": str(got[0]) if len(got) else None})
 
-    # ---- exact outputs of the implementation (eager run) vs the model, on a few rows
+    # ---- exact outputs of the implementation vs the model, every row
     if m_rows is not None and worst is None:
-        pick = sorted(set([0, len(rows) - 1] + [ctx.rng.randrange(len(rows)) for _ in range(3 if ctx.quick else 8)]))
-        if n >= 256:
-            pick = list(range(len(rows)))[:12]
+        pick = list(range(len(rows)))
         try:
-            cap = eager_capture(EV, ESA, comp, rows[pick])
+            cap = exact_capture(EV, ESA, comp, rows, batch)
         except Exception as e:  # noqa
             cap = None
-            ctx.log(f"eager capture failed on {name}: {type(e).__name__} {str(e)[:100]}")
+            ctx.log(f"exact capture failed on {name}: {type(e).__name__} {str(e)[:100]}")
         if cap is not None:
             co, po = cap
             for j, ri in enumerate(pick):
